@@ -27,25 +27,33 @@ fn mix_txs(mix: u8, h: u64) -> Vec<Tx> {
     let spend = |k: u8| TxIn::spend([0xa0 + k; 32], h as u32);
     match mix {
         0 => vec![],
-        1 => vec![Tx { version: 1, segwit: false, inputs: vec![spend(1)], outputs: vec![pay(3, 9 * COIN_VALUE)], locktime: 0 }],
+        1 => vec![Tx { version: 1, segwit: false, inputs: vec![spend(1)], outputs: vec![pay(3, 9 * COIN_VALUE)], locktime: 0, wide: 0 }],
         // two txs with equal total value, both above the coinbase (tie for biggest value: the first one wins)
         2 => vec![
-            Tx { version: 1, segwit: false, inputs: vec![spend(1)], outputs: vec![pay(3, 70 * COIN_VALUE), pay(4, 10 * COIN_VALUE)], locktime: 0 },
-            Tx { version: 1, segwit: false, inputs: vec![spend(2)], outputs: vec![pay(5, 80 * COIN_VALUE)], locktime: 0 },
+            Tx { version: 1, segwit: false, inputs: vec![spend(1)], outputs: vec![pay(3, 70 * COIN_VALUE), pay(4, 10 * COIN_VALUE)], locktime: 0, wide: 0 },
+            Tx { version: 1, segwit: false, inputs: vec![spend(2)], outputs: vec![pay(5, 80 * COIN_VALUE)], locktime: 0, wide: 0 },
         ],
         // two txs of equal witness-stripped size, larger than the coinbase (tie for biggest size)
         3 => vec![
-            Tx { version: 1, segwit: false, inputs: vec![spend(1), spend(3), spend(5), spend(7)], outputs: vec![pay(3, 1)], locktime: 0 },
-            Tx { version: 1, segwit: false, inputs: vec![spend(2), spend(4), spend(6), spend(8)], outputs: vec![pay(4, 2)], locktime: 0 },
-            Tx { version: 1, segwit: false, inputs: vec![spend(9), spend(10), spend(11), spend(12)], outputs: vec![pay(5, 3)], locktime: 0 },
+            Tx { version: 1, segwit: false, inputs: vec![spend(1), spend(3), spend(5), spend(7)], outputs: vec![pay(3, 1)], locktime: 0, wide: 0 },
+            Tx { version: 1, segwit: false, inputs: vec![spend(2), spend(4), spend(6), spend(8)], outputs: vec![pay(4, 2)], locktime: 0, wide: 0 },
+            Tx { version: 1, segwit: false, inputs: vec![spend(9), spend(10), spend(11), spend(12)], outputs: vec![pay(5, 3)], locktime: 0, wide: 0 },
         ],
+        // sizes are those of the bytes as stored: a transaction whose counts and lengths are kept in 3-byte CompactSize forms
+        // (16 bytes more than its shortest serialisation) next to a shortest-form transaction that is 10 bytes longer than that; both larger than the coinbase
+        5 => {
+            let a = Tx { version: 1, segwit: false, inputs: (1..=5).map(spend).collect(), outputs: vec![pay(3, 5)], locktime: 0, wide: 1 };
+            let mut b = Tx { version: 1, segwit: false, inputs: (6..=10).map(spend).collect(), outputs: vec![pay(4, 6)], locktime: 0, wide: 0 };
+            b.inputs[0].script_sig = vec![0x51; 11];
+            vec![b, a]
+        }
         // a segwit tx that is the biggest on disk but not witness-stripped, next to a larger legacy tx
         _ => {
             let mut i = spend(1);
             i.witness = vec![vec![7u8; 400], vec![8u8; 300]];
             vec![
-                Tx { version: 2, segwit: true, inputs: vec![i], outputs: vec![pay(3, 5)], locktime: 0 },
-                Tx { version: 1, segwit: false, inputs: vec![spend(2), spend(3), spend(4), spend(5), spend(6)], outputs: vec![pay(4, 6), pay(5, 7)], locktime: 0 },
+                Tx { version: 2, segwit: true, inputs: vec![i], outputs: vec![pay(3, 5)], locktime: 0, wide: 0 },
+                Tx { version: 1, segwit: false, inputs: vec![spend(2), spend(3), spend(4), spend(5), spend(6)], outputs: vec![pay(4, 6), pay(5, 7)], locktime: 0, wide: 0 },
             ]
         }
     }
@@ -63,7 +71,7 @@ fn build(c: &'static Coin, case: &Case) -> ChainBuilder {
         if case.types_world && i == 0 {
             let scripts = representatives(c, true);
             for (k, chunk) in scripts.chunks(5).enumerate() {
-                txs.push(Tx { version: 1, segwit: false, inputs: vec![TxIn::spend([0xee; 32], k as u32)], outputs: chunk.iter().enumerate().map(|(j, s)| TxOut { value: 100 + (k * 5 + j) as u64, script: s.clone() }).collect(), locktime: 0 });
+                txs.push(Tx { version: 1, segwit: false, inputs: vec![TxIn::spend([0xee; 32], k as u32)], outputs: chunk.iter().enumerate().map(|(j, s)| TxOut { value: 100 + (k * 5 + j) as u64, script: s.clone() }).collect(), locktime: 0, wide: 0 });
             }
         }
         let prev = cb.tip_hash();
@@ -95,7 +103,7 @@ pub fn run() -> Report {
             frontier = next;
         }
         for s in &seqs {
-            for mix in 0..5u8 {
+            for mix in 0..6u8 {
                 if cn == "litecoin" && !thorough && (mix + s.len() as u8) % 3 != 0 {
                     continue;
                 }
@@ -129,7 +137,7 @@ pub fn run() -> Report {
             cases.push(Case { coin: cn, base, times: vec![1000, 2000, 2500], mix: 1, cb_delta: 5000, types_world: false, label: "reward shift >= 64" });
         }
     }
-    rep.rule = "chains of 1..4 blocks x ALL timestamp sequences over {1, 1000, 4e9} (non-monotonic, equal, gaps summing beyond 2^32) x 5 transaction mixes (coinbase only, +1 tx, value tie, stripped-size tie, segwit tx biggest on disk only) on bitcoin (all) and litecoin; coinbase first-output value {reward-1, reward, reward+1, reward+5000, 0} x start heights around the halvings (sparse indexes); one world per coin with every script class; every figure of the parsed report compared with an exact integer / rational recomputation; non-trivial = distinct case with >= 2 blocks".into();
+    rep.rule = "chains of 1..4 blocks x ALL timestamp sequences over {1, 1000, 4e9} (non-monotonic, equal, gaps summing beyond 2^32) x 6 transaction mixes (coinbase only, +1 tx, value tie, stripped-size tie, segwit tx biggest on disk only, a tx with wide CompactSize forms) on bitcoin (all) and litecoin; coinbase first-output value {reward-1, reward, reward+1, reward+5000, 0} x start heights around the halvings (sparse indexes); one world per coin with every script class; every figure of the parsed report compared with an exact integer / rational recomputation; non-trivial = distinct case with >= 2 blocks".into();
     rep.bound = json!({"cases": cases.len(), "timestamps": tvals, "max_blocks": 4});
     rep.not_covered = vec!["value sums >= 2^64".into(), "header time 0 (used as 'no previous block' sentinel by the code; cannot occur after 1970)".into()];
     let root = refmodel::world::scratch_root();
